@@ -1386,6 +1386,20 @@ for _pid in ("C02", "C09"):
         "(Gen/StaticLeafCode, Gen/HoleLeafCode, Gen/RegexLeafCode; matchHeader is a parameter), are proved in Props/C02LeafCode to be "
         "the model's leafMatch for a leaf of that pattern — and in each a leaf whose header constraints fail neither matches nor writes "
         "a parameter (static_leaf_refines, hole_leaf_refines, regex_leaf_refines).")
+PROPS["C12"]["code_modules"] = PROPS["C12"]["code_modules"] + ["Flamego.Props.C12LeafCode"]
+PROPS["C12"]["technique"] = PROPS["C12"]["technique"] + "; and for baseLeaf.URLPath: its body (three nested range loops with break/continue into a bytes.Buffer, the \"/\" fallback, the range over the values building the replacer's pairs) is translated to Lean on every run and proved equal to the model's urlPath"
+PROPS["C12"]["level_text"] = PROPS["C12"]["level_text"] + (
+    " The leaf's half too: baseLeaf.URLPath (internal/route/leaf.go), translated on every run (Gen/LeafURLCode.lean: a bytes.Buffer "
+    "is its content, strings.NewReplacer(pairs...).Replace is the model's replaceAll on the paired-up list, the map of values is "
+    "ranged over in the order of the list that stands for it), is proved in Props/C12LeafCode to return the model's urlPath r vals "
+    "withOptional for every route AST, every list of values and either flag, leaving the leaf unchanged (urlPath_refines; the loops in "
+    "closed form: params_loop, elem_body, skeleton_go_eq, pairs_loop); Props/C12's theorems then hold of the code: "
+    "code_order_irrelevant (Go's unspecified map iteration order cannot be observed), code_tokenwise (simultaneous substitution, never "
+    "re-scanned), code_unknown_ignored, code_annotations_dropped, code_optional_fallback_root.")
+PROPS["C12"]["trusted_base"] = PROPS["C12"]["trusted_base"] + [
+    "code-level tie for baseLeaf.URLPath: translator/treecode.go (LeafURLCode); Code/LibRoute.lean: bytes.Buffer as its content, "
+    "strings.Replacer as the model's replaceAll over the paired-up argument list (replaceAll itself is compared with the real "
+    "strings.Replacer by the correspondence check on every run; keys are never empty here: each is `{`+name+`}`)"]
 _ALL = ['C01', 'C02', 'C03', 'C04', 'C05', 'C06', 'C07', 'C08', 'C09', 'C10', 'C11', 'C12', 'C13', 'C14', 'C15', 'C16', 'C17', 'C18']
 NOT_APPLICABLE = [
     {"property_id": p, "reason": "check not built yet in this revision (work in progress; see DESIGN.md §11 for the plan)"}
